@@ -52,6 +52,7 @@ class CNLTransformer(Transformer):
         self._proposition: PropositionBuilder = PropositionBuilder()
         self._delayed_operations: list[Command] = []
         self._defined_variables: list[str] = []
+        self._sentence_variables: list[list[str]] = []
 
     def _new_field_value(self, name: str = '') -> ValueComponent:
         if name:
@@ -90,10 +91,24 @@ class CNLTransformer(Transformer):
         elif elem == "The following propositions apply in the final state:":
             self._problem.name = 'final'
 
+    def transform(self, tree):
+        # the variables the author wrote in each sentence, in order: a name invented while a sentence is processed
+        # must avoid all of them, also those the (bottom-up) transformation has not reached yet
+        self._sentence_variables = [
+            [token.value for token in sentence.scan_values(lambda v: isinstance(v, lark.Token) and v.value.isupper())]
+            for sentence in tree.iter_subtrees_topdown()
+            if sentence.data in ('standard_proposition', 'implicit_definition_proposition',
+                                 'explicit_definition_proposition')]
+        self._defined_variables = self._next_sentence_variables()
+        return super().transform(tree)
+
+    def _next_sentence_variables(self):
+        return list(self._sentence_variables.pop(0)) if self._sentence_variables else []
+
     def _clear(self):
         self._proposition = PropositionBuilder()
         self._delayed_operations = []
-        self._defined_variables = []
+        self._defined_variables = self._next_sentence_variables()
 
     def explicit_definition_proposition(self, elem):
         if elem[0]:
